@@ -103,7 +103,8 @@ TUpdate ==
   /\ fault' = FALSE /\ Env
   /\ IF E.ok = 1
      THEN /\ Sh!UpdateBatch(E.pts, lim)
-          /\ Len(E.updated) = Cardinality(AsSet(E.updated))
+          \* one entry per requested point that existed (a batch may name a point twice)
+          /\ Len(E.updated) = Cardinality({k \in DOMAIN E.pts : E.pts[k].id \in DOMAIN pts})
           /\ AsSet(E.updated) = Sh!UpdatedIds(E.pts)
           /\ PNodesFunctional(E.P)
           /\ PN(E.P) = nodeOf /\ PF(E.P) = free /\ E.P.next = next /\ E.P.count = count
@@ -317,7 +318,10 @@ TCSearch ==
   /\ \A k \in DOMAIN E.docs :
         \E v \in (E.a + 1)..(E.b + 1) :
            /\ E.docs[k].id \in DOMAIN vers[v]
-           /\ Visible(vers[v][E.docs[k].id]) = E.docs[k].f
+           \* select "*" (sel empty) returns the whole document, named top-level fields exactly those present
+           /\ LET vis == Visible(vers[v][E.docs[k].id])
+              IN  IF Len(E.sel) = 0 THEN vis = E.docs[k].f
+                  ELSE E.docs[k].f = [fld \in AsSet(E.sel) \cap DOMAIN vis |-> vis[fld]]
 
 \* Known finding C09-b: with a shared cache (size # 0) a ranking search whose
 \* snapshot is older than a batch committed while it ran may attach the shared
